@@ -27,6 +27,10 @@ pub enum Op {
     /// a crafted message with one item part (have_local = true: no reply expected)
     Msg { entries: Vec<(usize, Vec<u8>, Option<usize>, u64, u8, bool)>, peer: u8 },
     Policy { pol: Pol },
+    /// a slow subscriber: a fresh channel that holds only `cap` events is subscribed, `n` local writes
+    /// are issued by another task, and the channel is read only after a pause (the writer has to wait
+    /// for room: nothing may be dropped or overtaken)
+    Burst { a: usize, n: usize, cap: usize, ts: u64 },
     /// (first op only) the document starts with the read capability
     StartReadOnly,
     /// `import_namespace` while the document is open and subscribed: `write` upgrades
@@ -94,6 +98,11 @@ impl Property for C12 {
                 Op::Unsubscribe { s: 0 },
                 Op::Local { a: 1, key: b"c".to_vec(), c: 0, ts: 9 },
             ]),
+            ("slow-subscriber-misses-nothing".into(), vec![
+                Op::Subscribe { s: 0 },
+                Op::Burst { a: 0, n: 6, cap: 2, ts: 30 },
+                Op::Local { a: 1, key: b"after".to_vec(), c: 0, ts: 40 },
+            ]),
             ("policy-decides-download-flag".into(), vec![
                 Op::Subscribe { s: 0 },
                 Op::Policy { pol: Pol { everything: false, filters: vec![(false, b"a".to_vec())] } },
@@ -131,6 +140,7 @@ impl Property for C12 {
                     }
                 }
                 18 if read_only || rng.chance(1, 3) => Op::Import { write: rng.chance(2, 3) },
+                19 if rng.chance(1, 2) => Op::Burst { a, n: rng.range(2, 7), cap: rng.range(1, 3), ts: ts + 100 },
                 _ => Op::Policy { pol: gen_pol(rng) },
             });
         }
@@ -176,6 +186,7 @@ impl Property for C12 {
             let chan_id = |s: usize, gen: usize| s * 100 + gen;
             let mut ids: Vec<Option<usize>> = vec![None; 4];
             let mut subscribed = [false; 4];
+            let mut burst_counter = 0usize;
             for op in ops {
                 let stable_before: Vec<bool> = (0..4).map(|s| subscribed[s] && matches!(&slots[s], Some((_, Some(_))))).collect();
                 iroh_docs::verif::set_clock_micros(Some(NOW));
@@ -303,6 +314,63 @@ impl Property for C12 {
                             outcome.num_recv, outcome.num_sent, heads_map_tok(&outcome.heads_received)
                         );
                         lines.push(Line::model(format!("emsgres 1 {nshex} {NOW} {} {}", hex(&peer_bytes(*peer)), msg_tok(&m, &tok)), line));
+                    }
+                    Op::Burst { a, n, cap, ts } => {
+                        let author = self.keys.authors[*a].clone();
+                        let (tx, rx) = async_channel::bounded::<Event>(*cap);
+                        burst_counter += 1;
+                        let id = 900 + burst_counter;
+                        handle.subscribe(nsid, tx.clone()).await?;
+                        lines.push(Line::model(format!("esub 1 {id}"), "ok"));
+                        iroh_docs::verif::set_clock_micros(Some(*ts));
+                        // the writer: n local writes to fresh keys, one after the other
+                        let writer = {
+                            let handle = handle.clone();
+                            let author_id = author.id();
+                            let n = *n;
+                            let tag = burst_counter;
+                            tokio::spawn(async move {
+                                let mut res = vec![];
+                                for i in 0..n {
+                                    let (hash, len) = content(i % 3);
+                                    let key = format!("burst{tag}-{i}").into_bytes();
+                                    res.push(handle.insert_local(nsid, author_id, key.into(), hash, len).await.map_err(|e| format!("{e:#}")));
+                                }
+                                res
+                            })
+                        };
+                        // the slow reader
+                        tokio::time::sleep(std::time::Duration::from_millis(40)).await;
+                        let mut got = vec![];
+                        let deadline = std::time::Instant::now() + std::time::Duration::from_secs(30);
+                        let mut writer = writer;
+                        let results = loop {
+                            tokio::select! {
+                                r = &mut writer => break r.map_err(|e| anyhow::anyhow!("writer: {e}"))?,
+                                ev = rx.recv() => { if let Ok(ev) = ev { got.push(event_tok(&ev, &tok)); } }
+                                _ = tokio::time::sleep_until(deadline.into()) => anyhow::bail!("burst did not finish"),
+                            }
+                        };
+                        while let Ok(ev) = rx.try_recv() {
+                            got.push(event_tok(&ev, &tok));
+                        }
+                        let mut expected = vec![];
+                        for (i, r) in results.iter().enumerate() {
+                            let key = format!("burst{burst_counter}-{i}").into_bytes();
+                            let e = make_entry(ns, &author, &key, Some(i % 3), *ts);
+                            let imp = match r {
+                                Ok(()) => { expected.push(format!("L~{}", tok(&e))); "inserted".to_string() }
+                                Err(s) if s.to_lowercase().contains("read only") || s.to_lowercase().contains("read access only") => "err:read-only".to_string(),
+                                Err(s) if s.contains("newer entry") => "notinserted".to_string(),
+                                Err(s) => format!("err:{s}"),
+                            };
+                            lines.push(Line::model(format!("elocalres 1 {}", tok(&e)), imp));
+                        }
+                        lines.push(Line::model(format!("einbox 1 {id}"), format!("events {} {}", got.len(), got.join(";"))));
+                        // specification: the slow subscriber saw every acknowledged write, once, in order
+                        lines.push(Line::oracle("sconst slow-subscriber-saw-every-write-in-order", if got == expected { "slow-subscriber-saw-every-write-in-order".to_string() } else { format!("slow-subscriber-saw-{}-of-{}-events", got.len(), expected.len()) }));
+                        handle.unsubscribe(nsid, tx.clone()).await?;
+                        lines.push(Line::model(format!("eunsub 1 {id}"), "ok"));
                     }
                     Op::Policy { pol } => {
                         handle.set_download_policy(nsid, pol.real()).await?;
